@@ -68,15 +68,21 @@ func ZZ_C08_seal_step() {
 
 	ct, err := c.Seal(pt, aad)
 
-	zzAssert(a.calls == 1, "exactly one AEAD call")
+	atMax := hi0 == 0xFFFFFFFF && lo0 == 0xFFFFFFFFFFFFFFFF
+	// (at the maximum an implementation may fail before or after the AEAD call)
+	zzAssert(a.calls == 1 || (atMax && a.calls == 0), "exactly one AEAD call")
 	for i := 0; i < 12; i++ {
-		zzAssert(a.nonce[i] == base0[i]^seq0[i], "nonce = base_nonce XOR seq")
+		if a.calls == 1 {
+			zzAssert(a.nonce[i] == base0[i]^seq0[i], "nonce = base_nonce XOR seq")
+		}
 		zzAssert(c.baseNonce[i] == base0[i], "base nonce immutable")
 	}
 	zzAssert(len(c.sequenceNumber) == 12 && len(c.baseNonce) == 12 && len(c.nonce) == 12, "lengths preserved")
-	if hi0 == 0xFFFFFFFF && lo0 == 0xFFFFFFFFFFFFFFFF {
+	if atMax {
 		zzAssert(err != nil, "overflow reports error")
 		zzAssert(ct == nil, "overflow releases no ciphertext")
+		hi1, lo1 := zzBE96(c.sequenceNumber)
+		zzAssert(hi1 == hi0 && lo1 == lo0, "a seal that fails at the maximum leaves the sequence number at the maximum")
 		for i := range a.out {
 			zzAssert(a.out[i] == 0, "overflow wipes AEAD output buffer")
 		}
@@ -112,7 +118,9 @@ func ZZ_C08_open_step() {
 	pt, err := c.Open(ct, nil)
 
 	for i := 0; i < 12; i++ {
-		zzAssert(a.nonce[i] == base0[i]^seq0[i], "nonce = base_nonce XOR seq")
+		if a.calls > 0 {
+			zzAssert(a.nonce[i] == base0[i]^seq0[i], "nonce = base_nonce XOR seq")
+		}
 	}
 	hi1, lo1 := zzBE96(c.sequenceNumber)
 	if a.failOpen || n < 16 {
@@ -120,6 +128,7 @@ func ZZ_C08_open_step() {
 		zzAssert(hi1 == hi0 && lo1 == lo0, "failed open leaves seq unchanged")
 	} else if hi0 == 0xFFFFFFFF && lo0 == 0xFFFFFFFFFFFFFFFF {
 		zzAssert(err != nil && pt == nil, "overflow reports error, no plaintext")
+		zzAssert(hi1 == hi0 && lo1 == lo0, "an open that fails at the maximum leaves the sequence number unchanged")
 		for i := range a.out {
 			zzAssert(a.out[i] == 0, "overflow wipes plaintext buffer")
 		}
